@@ -12,7 +12,7 @@
    All theorems hold for EVERY world [w] (reachable or not), every call, every merge mode. *)
 From OlaBase Require Import Bytes.
 From Coq Require Import Sorting.Sorted.
-From C01 Require Import Gen Model Spec Proofs Reach.
+From C01 Require Import Gen Time Model Spec Proofs Reach History.
 Local Open Scope N_scope.
 
 (* Constants of the property (2.5 s, priorities 0/100/200, 512 slots) are the repository's, and the
@@ -211,6 +211,99 @@ Theorem c01_prio_range : forall ops o,
 Proof. exact prio_range_lemma. Qed.
 Print Assumptions c01_prio_range.
 
+(* ---- history level ----
+   [happening_of w o] abstracts a call in world [w] into what it means for the universe (an update of
+   a source with the candidate sources of that moment, a SetDMX override, or something else);
+   [happenings init_world ops] is the abstract history of a call sequence, [Spec.spec_frame] the frame
+   the property text prescribes for an abstract history (fold of "the change replaces the frame,
+   anything else keeps it" from the empty frame), [Spec.calls_of] the calls it prescribes per step. *)
+
+(* For EVERY sequence of calls from the initial universe (source updates, clock readings across the
+   liveness boundary, patching and unpatching of ports and clients, priority and mode changes,
+   housekeeping, overrides) the frame held at the end is the specification's frame for that history,
+   and the calls made by each single step are exactly the specification's, nothing more or less. *)
+Theorem c01_history : forall ops,
+  u_buf (w_u (run ops)) = spec_frame (happenings init_world ops) /\
+  trace init_world ops = map calls_of (happenings init_world ops).
+Proof. exact history_lemma. Qed.
+Print Assumptions c01_history.
+
+(* ... and the specification's frame for a history is the frame of its LAST change (the merge of the
+   live highest-priority group at the last qualifying update, or the last override), or empty if the
+   history has no change at all. *)
+Theorem c01_last_change : forall hs : list happening,
+  ((forall h, In h hs -> change_of h = None) /\ spec_frame hs = []) \/
+  (exists pre h post f p outs sinks,
+     hs = pre ++ h :: post /\ change_of h = Some (f, p, outs, sinks) /\
+     (forall h', In h' post -> change_of h' = None) /\ spec_frame hs = f).
+Proof. exact last_change_lemma. Qed.
+Print Assumptions c01_last_change.
+
+(* Delivery exactly once: in every reachable world, a call that changes the frame (to [f], handed out
+   with priority [p]) makes exactly ONE WriteDMX call to each patched output port and exactly ONE
+   SendDMX call to each registered sink client, each carrying [f] and [p], and no call to anybody
+   else; [f] is the frame then held. *)
+Theorem c01_delivery_once : forall ops o f p outs sinks,
+  change_of (happening_of (run ops) o) = Some (f, p, outs, sinks) ->
+  let evs := snd (step (run ops) o) in
+  outs = u_outs (w_u (run ops)) /\ sinks = u_sinks (w_u (run ops)) /\
+  u_buf (w_u (fst (step (run ops) o))) = f /\
+  (forall q, In q outs -> filter (to_port q) evs = [WriteDMX q f p]) /\
+  (forall q, ~ In q outs -> filter (to_port q) evs = []) /\
+  (forall c, In c sinks -> filter (to_client c) evs = [SendDMX c f p]) /\
+  (forall c, ~ In c sinks -> filter (to_client c) evs = []).
+Proof. exact delivery_lemma. Qed.
+Print Assumptions c01_delivery_once.
+
+(* Where candidate frames come from.  One call changes an input port's frame only if it is data
+   arriving on that port while it is patched (then it is that data, first 512 slots, stamped with the
+   wake-up time and the port's current priority), and a client's frame only if it is data from that
+   client for this universe; every other call (including data for another universe, patching,
+   priority changes, merges, housekeeping) leaves all stored frames as they are. *)
+Theorem c01_source_frames : forall w o,
+  (forall i, p_src (w_ports (fst (step w o)) i) =
+     match o with
+     | PortData j d ts _ =>
+       if (i =? j) && mem j (u_inputs (w_u w))
+       then {| s_data := dmx_set d; s_ts := ts; s_prio := port_priority (w_ports w j) |}
+       else p_src (w_ports w i)
+     | _ => p_src (w_ports w i)
+     end) /\
+  (forall c, w_csrc (fst (step w o)) c =
+     match o with
+     | ClientData j d p ts _ =>
+       if c =? j then {| s_data := dmx_set d; s_ts := ts; s_prio := p |} else w_csrc w c
+     | _ => w_csrc w c
+     end).
+Proof. exact step_sources. Qed.
+Print Assumptions c01_source_frames.
+
+(* History level: after any sequence of calls a client's candidate frame is the last frame it sent to
+   this universe (data, stamp and priority as sent), or the never-set source if it sent none. *)
+Theorem c01_client_frames : forall ops c,
+  w_csrc (run ops) c =
+  fold_left (fun s o => match o with
+                        | ClientData j d p ts _ =>
+                          if c =? j then {| s_data := dmx_set d; s_ts := ts; s_prio := p |} else s
+                        | _ => s
+                        end) ops unset_source.
+Proof. exact client_frames_lemma. Qed.
+Print Assumptions c01_client_frames.
+
+(* struct timeval arithmetic of common/utils/Clock.cpp (TimerAdd with carry, timercmp, timerisset,
+   Set(int64)) on normalised non-negative values is the microsecond arithmetic of the model:
+   IsSet <-> us <> 0, IsActive(now) <-> us(now) < us(ts) + 2 500 000; constants regenerated. *)
+Theorem c01_timeval : forall now ts : timeval,
+  (USEC_IN_SECONDS, TIMEOUT_SEC, TIMEOUT_USEC) = (1000000, 2, 500000) /\
+  (tv_norm now = true -> tv_norm ts = true ->
+   tv_isset ts = negb (tv_us ts =? 0) /\
+   tv_active now ts = (tv_us now <? tv_us ts + TIMEOUT_US) /\
+   tv_norm (tv_add ts (TIMEOUT_SEC, TIMEOUT_USEC)) = true /\
+   tv_set (tv_us ts) = ts /\
+   tv_set TIMEOUT_US = (TIMEOUT_SEC, TIMEOUT_USEC)).
+Proof. intros now ts. split; [reflexivity|exact (timeval_lemma now ts)]. Qed.
+Print Assumptions c01_timeval.
+
 (* ---- the hypotheses are satisfiable (non-vacuity), on concrete histories ---- *)
 Definition ex_setup : list op :=
   [AddInput 0; AddInput 1; AddOutput 5; AddSink 2; SetMode false;
@@ -303,4 +396,26 @@ Example ex_setdmx :
   let w := run [AddOutput 5; AddSink 1; OutResult 5 false; SinkResult 1 false] in
   step w (SetDMX []) = (w, []) /\
   snd (step w (SetDMX [1; 2])) = [WriteDMX 5 [1; 2] 0; SendDMX 1 [1; 2] 0].
+Proof. vm_compute. repeat split; reflexivity. Qed.
+
+(* history level: a concrete history with three changes and rejected updates in between; the premise
+   of c01_delivery_once holds for its last call *)
+Definition ex_hist : list op :=
+  [AddInput 0; AddOutput 5; AddSink 2; ClientData 4 [8; 8] 200 1000 1000;
+   PortData 0 [1] 2000 2000; SetMode false; RemoveSink 2; AddSink 3;
+   PortData 0 [1; 2; 3] 2501000 2501000; CleanStale; ClientData 4 [9] 100 2501001 2501001].
+Example ex_history :
+  map change_of (happenings init_world ex_hist) =
+    [None; None; None; Some ([8; 8], 200, [5], [2]); None; None; None; None;
+     Some ([1; 2; 3], 100, [5], [3]); None; Some ([9; 2; 3], 100, [5], [3])] /\
+  u_buf (w_u (run ex_hist)) = [9; 2; 3] /\
+  trace init_world ex_hist =
+    [[]; []; []; [WriteDMX 5 [8; 8] 200; SendDMX 2 [8; 8] 200]; []; []; []; [];
+     [WriteDMX 5 [1; 2; 3] 100; SendDMX 3 [1; 2; 3] 100]; [];
+     [WriteDMX 5 [9; 2; 3] 100; SendDMX 3 [9; 2; 3] 100]].
+Proof. vm_compute. repeat split; reflexivity. Qed.
+Example ex_timeval :
+  tv_norm (2, 500999) = true /\ tv_active (2, 500999) (0, 1000) = true /\
+  tv_active (2, 501000) (0, 1000) = false /\ tv_active (3, 0) (0, 500000) = false /\
+  tv_active (2, 999999) (0, 500000) = true /\ tv_isset (0, 0) = false.
 Proof. vm_compute. repeat split; reflexivity. Qed.
